@@ -327,7 +327,32 @@ def check_disturbed(case):
     return OK(s.switches >= 2, "interleaved", key=engine.jdump(calls) + "|" + str(hash(tuple(s.trace))))
 
 
-CHECKS = {"disturbed": check_disturbed, "perm": check_perm, "dihedral_group": check_dihedral_group, "simion_schmidt": check_simion_schmidt, "affine": check_affine}
+def check_light(case):
+    """The four devices, their sortable predicates and the sort counts alone (no families), so
+    that whole further lengths and long block-structured permutations can be swept."""
+    p = tuple(case)
+    P = Perm(p)
+    ident = tuple(range(len(p)))
+    for name, got, want, sortable in (
+        ("stack_sort", P.stack_sort(), S.stack_pass(p), P.stack_sortable()),
+        ("pop_stack_sort", P.pop_stack_sort(), S.pop_stack_pass(p), P.pop_stack_sortable()),
+        ("bubble_sort", P.bubble_sort(), bubble_pass(p), P.bubble_sortable()),
+        ("quick_sort", P.quick_sort(), quick_pass(p), P.quick_sortable()),
+    ):
+        if tuple(got) != want:
+            return BAD("light_" + name, {"perm": list(p), "got": list(got), "want": list(want)})
+        if sortable != (want == ident):
+            return BAD("light_" + name + "able", {"perm": list(p), "got": sortable})
+    if P.count_stack_sorts() != S.passes(p, S.stack_pass) or P.count_pop_stack_sorts() != S.passes(p, S.pop_stack_pass):
+        return BAD("light_sort_counts", {"perm": list(p)})
+    w2 = S.stack_pass(S.stack_pass(p))
+    if P.west_2_stack_sortable() != (w2 == ident) or P.west_3_stack_sortable() != (S.stack_pass(w2) == ident):
+        return BAD("light_west", {"perm": list(p)})
+    sfp = len(S.strong_fixed_points(p))
+    return OK(len(p) >= 8, "many_strong_fixed_points" if sfp >= 3 else "few_strong_fixed_points", key="light" + str(p))
+
+
+CHECKS = {"light": check_light, "disturbed": check_disturbed, "perm": check_perm, "dihedral_group": check_dihedral_group, "simion_schmidt": check_simion_schmidt, "affine": check_affine}
 
 
 def shard_perms(acc, shard, nshards, max_n):
@@ -339,6 +364,29 @@ def shard_perms(acc, shard, nshards, max_n):
             acc.record("simion_schmidt", check_simion_schmidt, n)
         if (n + 5) % nshards == shard:
             acc.record("dihedral_group", check_dihedral_group, n)
+
+
+@st.composite
+def block_perms(draw):
+    """direct sums of 3-9 small blocks (many of them single points - strong fixed points -
+    between blocks of 2-4 points), total length up to about 20: the recursive / splitting
+    structure of the sorting algorithms is steered by exactly this shape"""
+    parts = []
+    for _ in range(draw(st.integers(3, 9))):
+        size = draw(st.sampled_from([1, 1, 1, 2, 2, 3, 3, 4]))
+        parts.append(tuple(draw(gen.perm_of(size))))
+    if draw(st.integers(0, 5)) == 0:
+        parts = [tuple(reversed(b)) for b in parts]
+    out = ref.direct_sum(*parts) if len(parts) > 1 else parts[0]
+    if draw(st.integers(0, 7)) == 0:
+        out = tuple(reversed(out))
+    return list(out)
+
+
+def shard_light(acc, shard, nshards, n):
+    for i, p in enumerate(ref.perms(n)):
+        if i % nshards == shard:
+            acc.record("light", check_light, list(p))
 
 
 @st.composite
@@ -359,6 +407,7 @@ def disturbed_cases(draw):
 
 def shard_generated(acc, shard, nshards, n_perm):
     engine.hyp_run(acc, "disturbed", check_disturbed, disturbed_cases(), n_perm, shard)
+    engine.hyp_run(acc, "light", check_light, block_perms(), 15 * n_perm, shard)
     engine.hyp_run(acc, "perm", check_perm, gen.perms(8, 11).map(list), n_perm, shard)
     for n in range(3, 31):
         if n % nshards == shard:
@@ -366,6 +415,7 @@ def shard_generated(acc, shard, nshards, n_perm):
 
 
 def run(acc, tier):
+    engine.pmap(acc, shard_light, extra=((9,) if tier == "quick" else (10,)))
     if tier == "quick":
         engine.pmap(acc, shard_perms, extra=(7,))
         engine.pmap(acc, shard_generated, extra=(40,))
